@@ -96,7 +96,8 @@ where
     let strat = if cfg.mode == Mode::Token {
         let mut srng = Rng::new(cfg.sseed);
         let s = match srng.below(8) {
-            0..=4 => Strat::Random { sw: *srng.pick(&[1, 2, 4, 8, 12, 16]) },
+            0..=2 => Strat::Random { sw: *srng.pick(&[1, 2, 4, 8, 12, 16]) },
+            3..=4 => Strat::Windows { p_in: *srng.pick(&[8, 12, 16]), p_out: *srng.pick(&[0, 1, 2]) },
             5..=6 => Strat::Pct { d: srng.range(1, 3) as u32, horizon: (rounds * per_round * child_ops * 60) as u64 },
             // the writer (tid 1) as the adversary's victim: whole child lives fit between two of its steps
             _ => Strat::Adversary { victim: *srng.pick(&[1usize, 2]), k: srng.range(1, 4) as u32, p: *srng.pick(&[1, 2, 4]) },
